@@ -70,7 +70,14 @@ def part_splits(m, rnd, limit):
         combos = [combos[0], combos[-1]] + rnd.sample(combos[1:-1], limit - 2)
     for c in combos:
         cuts = [0] + list(c) + [len(m)]
-        yield [m[a:b] for a, b in zip(cuts, cuts[1:])] if m else []
+        parts = [m[a:b] for a, b in zip(cuts, cuts[1:])] if m else []
+        yield parts
+        # the same split with empty parts in it (an empty header block, an empty body): they change nothing
+        if rnd.random() < 0.5:
+            withempty = list(parts)
+            for _ in range(rnd.randint(1, 2)):
+                withempty.insert(rnd.randint(0, len(withempty)), b'')
+            yield withempty
 
 
 def execute(m, parts, trailer, cuts, inbuf):
